@@ -106,8 +106,8 @@ func (c RawConfiguration) handleAsyncCall(ctx context.Context, fut *Async, state
 			return
 		}
 		if len(errs)+len(replies) == state.expectedReplies {
-			if ctx.Err() != nil {
-				// the context ended (which may be why the remaining nodes failed)
+			if failedByContext(ctx, errs) {
+				// the context ended, which is why (some of) the remaining nodes failed
 				fut.reply, fut.err = resp, QuorumCallError{cause: ctx.Err(), errors: errs, replies: len(replies)}
 				return
 			}
